@@ -6,8 +6,16 @@
   Props/CodeTies6.lean (`f.coefs` = `List (Option Nat)`, `absC F c`: nil ↦ `F.zero`); the loops call the
   translated `coefIsZero` / `IsZero` / `Degrees` on the current `f.coefs`.  `make([]int, 0, len(f.coefs))`
   is the empty list (capacity invisible).  Proofs: Proofs/CodeTies7.lean.
+  Part 2: the word-level element constructors / observers of binfield and primefield
+  (/repo/finitefield/{binfield,primefield}/element.go) against the fields `ofNat`, `ofInt`, `nTerms` of
+  `binOps` (Model/Ext.lean) and `primeOps` (Model/Field.lean).  An object literal `&Element{field: f,
+  val: X}` is the value word `X`; returned as an `ff.Element` it is the non-nil element `some X`; a
+  method returning its receiver as `ff.Element` (`SetUnsigned`) returns the new `val`.
+  Proofs: Proofs/CodeTies7b.lean.
 -/
 import Algobra.Proofs.CodeTies7
+import Algobra.Proofs.CodeTies7b
+import Algobra.Props.CodeTies
 
 namespace Algobra
 namespace CodeTies7
@@ -46,6 +54,59 @@ example : go_univariate_Polynomial_NTerms [some 1, none, some 2] (primeOps 5).is
   rw [nTerms_tie (primeOps 5) (by decide) _ (by decide) (by decide)]; decide
 example : go_univariate_Polynomial_IsMonomial [some 0, none, some 2] (primeOps 5).isZero = some true := by
   rw [isMonomial_tie (primeOps 5) (by decide) _ (by decide)]; decide
+
+/-! ### 2. word-level constructors and observers of the fields -/
+
+/-- binfield `ElementFromUnsigned(v)` = `(binOps n m).ofNat v`, never nil -/
+theorem bin_fromUnsigned_tie (n m : Nat) (v : Nat) :
+    go_binfield_Field_ElementFromUnsigned (val := v) = some ((binOps n m).ofNat v) := rfl
+
+/-- binfield `ElementFromSigned(v)` = `(binOps n m).ofInt v` for every `v` (`val += 2` never wraps) -/
+theorem bin_fromSigned_tie (n m : Nat) (v : Int) :
+    go_binfield_Field_ElementFromSigned (val := v) = some ((binOps n m).ofInt v) :=
+  CodeTies7Proofs.bin_fromSigned v
+
+/-- binfield `ElementFromBits(v)`: the value word after the method statement `a.reduce()`; composed with
+    the translated `reduce` (Props/CodeTies.lean) it is the model's `Bin.reduce` for a valid modulus -/
+theorem bin_fromBits_tie {v m n : Nat} (hv : v < 2 ^ 64) (hm1 : 2 ^ n ≤ m) (hm2 : m < 2 ^ (n + 1)) :
+    go_binfield_Field_ElementFromBits (method_reduce := fun x => go_binfield_Element_reduce x m n)
+        (val := v) = some (Bin.reduce n m v) := by
+  show some (go_binfield_Element_reduce v m n) = _
+  rw [CodeTies.reduce_tie hv hm1 hm2]
+
+/-- binfield `(*Element).NTerms()` = `(binOps n m).nTerms` on words (`uint(bits.OnesCount(·))`) -/
+theorem bin_nTerms_tie (n m : Nat) {a : Nat} (ha : a < 2 ^ 64) :
+    go_binfield_Element_NTerms (a_val := a) = (binOps n m).nTerms a :=
+  CodeTies7Proofs.bin_nTerms ha
+
+/-- binfield `SetUnsigned(v)`: the new value is `(binOps n m).ofNat v` whatever the old one was -/
+theorem bin_setUnsigned_tie (n m a v : Nat) :
+    go_binfield_Element_SetUnsigned (a_val := a) (val := v) = (binOps n m).ofNat v := rfl
+
+/-- primefield `element(v)` and `ElementFromUnsigned(v)` = `(primeOps p).ofNat v` -/
+theorem prime_element_tie (p v : Nat) :
+    go_primefield_Field_element (f_char := p) (val := v) = Prime.element p v := rfl
+
+theorem prime_fromUnsigned_tie (p v : Nat) :
+    go_primefield_Field_ElementFromUnsigned (f_char := p) (val := v) = some ((primeOps p).ofNat v) := rfl
+
+/-- primefield `SetUnsigned(v)` (`a.field.Char() = p`) -/
+theorem prime_setUnsigned_tie (p a v : Nat) :
+    go_primefield_Element_SetUnsigned (a_val := a) (a_field_Char := p) (val := v) = (primeOps p).ofNat v :=
+  rfl
+
+/-- primefield `Uint()` is the value word; `NTerms()` is 1 -/
+theorem prime_uint_tie (a : Nat) : go_primefield_Element_Uint (a_val := a) = a := rfl
+
+theorem prime_nTerms_tie (p a : Nat) : go_primefield_Element_NTerms = (primeOps p).nTerms a := rfl
+
+example : (200 : Nat) < 2 ^ 64 ∧ 2 ^ 3 ≤ 11 ∧ 11 < 2 ^ (3 + 1) := by decide
+example : go_binfield_Field_ElementFromBits (fun x => go_binfield_Element_reduce x 11 3) 200 = some 7 := by
+  decide
+example : go_binfield_Field_ElementFromSigned (-3) = some 1 := by decide
+example : go_binfield_Element_NTerms 11 = 3 := by
+  rw [bin_nTerms_tie 3 11 (by decide)]; decide +kernel
+example : go_primefield_Field_ElementFromUnsigned 7 10 = some 3 := by decide
 
 end CodeTies7
 end Algobra
